@@ -257,8 +257,10 @@ class Emitter:
         if k == "eop":
             si = self.dop_id(d["s"])
             i = self.fresh("eo")
+            # (MAX- / MIN-NUMBER-OF-ITEMS are not enforced on either side: the field takes and returns any number of items)
+            lim = "" if d.get("maxn") is None else f'<MAX-NUMBER-OF-ITEMS>{d["maxn"]}</MAX-NUMBER-OF-ITEMS><MIN-NUMBER-OF-ITEMS>0</MIN-NUMBER-OF-ITEMS>'
             self.eops.append(f'<END-OF-PDU-FIELD ID="{i}"><SHORT-NAME>{i}</SHORT-NAME>'
-                             f'<BASIC-STRUCTURE-REF ID-REF="{si}"/></END-OF-PDU-FIELD>')
+                             f'<BASIC-STRUCTURE-REF ID-REF="{si}"/>{lim}</END-OF-PDU-FIELD>')
             return i
         if k == "endmarker":
             si = self.dop_id(d["s"])
@@ -739,12 +741,14 @@ class Gen:
                 # (a 16 bit item count in front of items of zero size makes both sides build lists of up to 65535 empty
                 # items: correct, but it dominates the run time of the model)
                 # (the same holds for items which may occupy nothing: only items of a positive static size get a wide count)
-                cnt = simple(std(BUINT, r.choice([8, 8, 4, 16] if (self.static_size(s) or 0) > 0 else [8, 8, 4]), None, r.random() < 0.7))
+                # (... and items which are nothing but BYTE-SIZE padding are "decoded" beyond the end of the PDU without error)
+                wide_ok = (self.static_size(s) or 0) > 0 and s["bs"] is None and bool(s["params"])
+                cnt = simple(std(BUINT, r.choice([8, 8, 4, 16] if wide_ok else [8, 8, 4]), None, r.random() < 0.7))
                 cb, cbit = r.choice([(0, 0), (0, 0), (1, 0), (0, 2)])
                 off = cb + (cnt["dct"]["bl"] + cbit + 7) // 8 + r.choice([0, 0, 1])
                 return dict(k="dynlen", s=s, offset=off, cb=cb, cbit=cbit, cnt=cnt)
             if fk == "eop":
-                return dict(k="eop", s=s)
+                return dict(k="eop", s=s, maxn=r.choice([None, None, 1, 2]))
             t = simple(std(BUINT, r.choice([8, 8, 8, 16]), None, True))
             return dict(k="endmarker", s=s, tdop=t, tval=r.choice([0, 255, 170]))
         if self.muxs and depth < self.max_depth and x < 0.37:
